@@ -19,15 +19,17 @@ import (
 
 // GOp is one client-level GCS operation (possibly several HTTP requests).
 type GOp struct {
-	Kind   string            `json:"op"` // CreateBucket DeleteBucket Upload Get GetMeta Patch Delete Compose Copy List
-	Bucket string            `json:"b,omitempty"`
-	Name   string            `json:"n,omitempty"`
-	Proto  string            `json:"proto,omitempty"` // media | multipart | resumable
-	Data   []byte            `json:"data,omitempty"`
-	Meta   gcs.ObjMeta       `json:"meta,omitempty"`
-	Gzip   bool              `json:"gzip,omitempty"`
-	GzN    int               `json:"gzip_members,omitempty"` // >1: the compressed body consists of several gzip members
-	Conds  map[string]string `json:"conds,omitempty"`        // symbolic values: cur other zero bad, or a literal number
+	// AltType: what the secondary carrier of the content type says (see gcs.AltType)
+	AltType string            `json:"alt_type,omitempty"`
+	Kind    string            `json:"op"` // CreateBucket DeleteBucket Upload Get GetMeta Patch Delete Compose Copy List
+	Bucket  string            `json:"b,omitempty"`
+	Name    string            `json:"n,omitempty"`
+	Proto   string            `json:"proto,omitempty"` // media | multipart | resumable
+	Data    []byte            `json:"data,omitempty"`
+	Meta    gcs.ObjMeta       `json:"meta,omitempty"`
+	Gzip    bool              `json:"gzip,omitempty"`
+	GzN     int               `json:"gzip_members,omitempty"` // >1: the compressed body consists of several gzip members
+	Conds   map[string]string `json:"conds,omitempty"`        // symbolic values: cur other zero bad, or a literal number
 	// resumable: chunk plan; nil = one chunk with the whole payload
 	Chunks []GChunk `json:"chunks,omitempty"`
 	No308  bool     `json:"no308,omitempty"`
@@ -83,12 +85,17 @@ func (o GOp) String() string {
 		c = " if{" + strings.Join(ks, ",") + "}"
 	}
 	switch o.Kind {
+	case "GetBucket":
+		return fmt.Sprintf("GetBucket(%s)", o.Bucket)
 	case "ClashRetry":
 		return fmt.Sprintf("ClashRetry[%s](%s/%q blocked by %q, then %q deleted and the upload retried)", o.Proto, o.Bucket, o.Name, o.Name2, o.Name2)
 	case "Upload":
 		s := fmt.Sprintf("Upload[%s](%s/%q,%q,ct=%q", o.Proto, o.Bucket, o.Name, trunc(o.Data), o.Meta.ContentType)
 		if o.Meta.Md5Hash != "" {
 			s += ",md5=" + o.Meta.Md5Hash
+		}
+		if o.AltType != "" {
+			s += ",part/header-type=" + o.AltType
 		}
 		if len(o.Meta.Metadata) > 0 {
 			s += fmt.Sprintf(",meta=%v", o.Meta.Metadata)
@@ -228,6 +235,18 @@ func (w *gcsWorld) resolve(b, n string, conds map[string]string) map[string]stri
 			out[k] = strconv.FormatInt(c+1, 10)
 		case "zero":
 			out[k] = "0"
+		case "neg":
+			out[k] = "-1"
+		case "huge":
+			out[k] = "9223372036854775807"
+		case "below":
+			// (zero is a value of its own - "must not exist" / not judged for the other parameters - so the
+			// predecessor of 1 is replaced by another number)
+			if c-1 == 0 {
+				out[k] = strconv.FormatInt(c+2, 10)
+			} else {
+				out[k] = strconv.FormatInt(c-1, 10)
+			}
 		case "bad":
 			out[k] = "abc"
 		case "badesc": // sent unescaped (see gcs.condQuery): the current number followed by a broken percent escape
@@ -303,6 +322,31 @@ func (w *gcsWorld) step(o *GOp) (string, string) {
 		}
 		if mdl.Buckets[o.Bucket] == nil {
 			mdl.Buckets[o.Bucket] = map[string]*gcs.MObj{}
+		}
+		return "", ""
+	case "GetBucket":
+		r := w.do(gcs.ReqGetBucket(o.Bucket))
+		if r.Panic != "" {
+			return fail("panic", "panic: %s", r.Panic)
+		}
+		if mdl.Buckets[o.Bucket] == nil {
+			if r.Status != 404 {
+				return fail("status", "status %d %.80q, want 404: the bucket does not exist", r.Status, r.Body)
+			}
+			if e := checkErrBody(r); e != "" {
+				return fail("errbody", "%s", e)
+			}
+			return "", ""
+		}
+		if r.Status != 200 {
+			return fail("status", "status %d, want 200", r.Status)
+		}
+		var bk struct {
+			Kind string `json:"kind"`
+			Name string `json:"name"`
+		}
+		if err := json.Unmarshal(r.Body, &bk); err != nil || bk.Name != o.Bucket {
+			return fail("body", "bucket resource %.120q does not name bucket %q", r.Body, o.Bucket)
 		}
 		return "", ""
 	case "DeleteBucket":
@@ -593,6 +637,8 @@ func (w *gcsWorld) step(o *GOp) (string, string) {
 }
 
 func (w *gcsWorld) stepUpload(o *GOp) (string, string) {
+	gcs.AltType = o.AltType
+	defer func() { gcs.AltType = "" }()
 	mdl := w.model
 	fail := func(class, f string, a ...interface{}) (string, string) {
 		return fmt.Sprintf("%s: ", o.String()) + fmt.Sprintf(f, a...) + "\n   http: " + strings.Join(w.trace, "\n         "), class
